@@ -6,6 +6,7 @@ import (
 	"strings"
 
 	"github.com/HobbyOSs/gosk/internal/ast"
+	"github.com/HobbyOSs/gosk/pkg/cpu"
 	"github.com/HobbyOSs/gosk/pkg/ng_operand"
 )
 
@@ -47,11 +48,26 @@ func processPushPopCommon(env *Pass1, operands []ast.Exp, instName string) {
 		size = 1 // Default size assumption, might need refinement
 	}
 	// codegen (handlePUSH/handlePOP) が出力する長さに合わせる
-	if up := strings.ToUpper(operandString); up == "FS" || up == "GS" {
+	if v, ok := env.GetConstValue(operands[0]); ok && instName == "PUSH" {
+		size = pushImmSize(int64(v), env.BitMode)
+	} else if up := strings.ToUpper(operandString); up == "FS" || up == "GS" {
 		size = 2 // 0F A0/A1/A8/A9
 	}
 	env.LOC += int32(size)
 
 	// Emit the command
 	env.Client.Emit(fmt.Sprintf("%s %s", instName, operandString))
+}
+
+// pushImmSize returns the number of bytes handlePUSH emits for PUSH imm:
+// 6A ib, 68 iw (16-bit mode) or 68 id.
+func pushImmSize(v int64, bitMode cpu.BitMode) int {
+	switch {
+	case v >= -128 && v <= 127:
+		return 2
+	case bitMode == cpu.MODE_16BIT:
+		return 3
+	default:
+		return 5
+	}
 }
